@@ -29,6 +29,7 @@ Inductive cmd :=
 | Mutate (x : name)       (* subscript store, augmented assignment, np.fill_diagonal, .sort(), .flat[..]=, out=, ... *)
 | CallFn (x : name) (f : name) (args : list name) (fl : flagarg)   (* x = f(args) for a bct function f *)
 | Return (x : name)
+| Raise                   (* raise: never completes normally (its only run is E_Raise) *)
 | Seq (c1 c2 : cmd)
 | Choice (c1 c2 : cmd)    (* if / else on data *)
 | Loop (c : cmd)          (* for / while: any number of iterations *)
@@ -98,12 +99,17 @@ Inductive exec : cmd -> state -> outcome -> Prop :=
 | E_Copy : forall x y s l, env s y = Some l ->
     exec (Bind x (CopyOf y)) s
       (Normal (mkst (upd_env (env s) x (Some (next s))) (upd_heap (heap s) (next s) (heap s l)) (S (next s)) (flag s)))
+| E_CopyNone : forall x y s v, env s y = None ->     (* y holds no array (scalar, global): behaves like Fresh *)
+    exec (Bind x (CopyOf y)) s
+      (Normal (mkst (upd_env (env s) x (Some (next s))) (upd_heap (heap s) (next s) v) (S (next s)) (flag s)))
 | E_Alias : forall x y s,
     exec (Bind x (AliasOf y)) s (Normal (mkst (upd_env (env s) x (env s y)) (heap s) (next s) (flag s)))
 | E_Unknown : forall x s l,
     exec (Bind x Unknown) s (Normal (mkst (upd_env (env s) x l) (heap s) (next s) (flag s)))
 | E_Mutate : forall x s l v, env s x = Some l ->       (* ARBITRARY new contents *)
     exec (Mutate x) s (Normal (mkst (env s) (upd_heap (heap s) l v) (next s) (flag s)))
+| E_MutateNone : forall x s, env s x = None ->        (* x holds no array: nothing in the heap changes *)
+    exec (Mutate x) s (Normal s)
 | E_Return : forall x s, exec (Return x) s (Returned s (env s x))
 | E_SeqN : forall c1 c2 s s1 o, exec c1 s (Normal s1) -> exec c2 s1 o -> exec (Seq c1 c2) s o
 | E_SeqR : forall c1 c2 s s1 r, exec c1 s (Returned s1 r) -> exec (Seq c1 c2) s (Returned s1 r)
@@ -207,6 +213,7 @@ Fixpoint may_alias_params (prog : list fundef) (c : cmd) (T : list name) (cur : 
   | Bind x Unknown => Some (add x T, false)
   | Mutate x => if mem x T then None else Some (T, false)
   | Return x => Some (T, mem x T)
+  | Raise => Some (T, false)
   | CallFn x f args fl =>
       match lookup prog f with
       | None => None
@@ -243,6 +250,7 @@ Fixpoint may_alias_params (prog : list fundef) (c : cmd) (T : list name) (cur : 
 Fixpoint must_alias (prog : list fundef) (c : cmd) (M : list name) (cur : bool) {struct c} : option (list name) :=
   match c with
   | Skip => Some M
+  | Raise => Some M
   | Mutate _ => Some M
   | Bind x (AliasOf y) => Some (if mem y M then add x M else remove x M)
   | Bind x _ => Some (remove x M)
@@ -272,6 +280,7 @@ Fixpoint must_alias (prog : list fundef) (c : cmd) (M : list name) (cur : bool) 
 Fixpoint always_returns (c : cmd) (cur : bool) : bool :=
   match c with
   | Return _ => true
+  | Raise => true
   | Seq a b => always_returns a cur || always_returns b cur
   | Choice a b => always_returns a cur && always_returns b cur
   | IfFlag a b => if cur then always_returns a cur else always_returns b cur
